@@ -444,6 +444,12 @@ func errNodeUse(ev *errCondEval, n ast.Node) string {
 			if certainErr(ev.fn, v.Results[n-1], v) {
 				return "fails"
 			}
+			// the failure reported through a boolean result (the "ok" of a transform)
+			for _, res := range v.Results {
+				if id, ok := ast.Unparen(res).(*ast.Ident); ok && id.Name == "false" {
+					return "translated"
+				}
+			}
 			// some other error-typed value chosen inside the failure branch
 			last := ast.Unparen(v.Results[n-1])
 			if t := ev.fn.Pkg.TypesInfo.TypeOf(last); t != nil && !isNilIdent(ev.fn, last) && (isErrorType(t) || types.Implements(t, errorIface)) {
